@@ -95,6 +95,12 @@ class MrAndersonSimulator(object):
                   
         """
 
+        # Bits are addressed by their position in their register: bring a circuit with several registers to one register each
+        if isinstance(t_qiskit_circ, QuantumCircuit) and (len(t_qiskit_circ.qregs) != 1 or len(t_qiskit_circ.cregs) > 1):
+            flat_circ = QuantumCircuit(t_qiskit_circ.num_qubits, t_qiskit_circ.num_clbits, name=t_qiskit_circ.name)
+            flat_circ.compose(t_qiskit_circ, qubits=range(t_qiskit_circ.num_qubits), clbits=range(t_qiskit_circ.num_clbits), inplace=True)
+            t_qiskit_circ = flat_circ
+
         # Process layout circuit
         qubits_layout_t, qubit_bit, n_qubit_t = self._process_layout(t_qiskit_circ)
 
